@@ -174,7 +174,17 @@ fn protocol_stream(rep: &mut Report, drv: &mut Driver, rng: &mut Rng, n: usize) 
     std::fs::create_dir_all(root.join("sub")).map_err(|e| e.to_string())?;
     for i in 0..n {
         let ok_doc = rng.chance(1, 2);
-        let d = if ok_doc { format!("<svg><rect wh=\"{} 2\"/></svg>", 1 + rng.below(9)) } else { format!("<svg><rect xy=\"#ghost{}|h\" wh=\"2\"/></svg>", rng.below(9)) };
+        let d = if ok_doc { format!("{}<svg><rect wh=\"{} 2\"/></svg>", if rng.chance(1, 3) { "<?xml version=\"1.0\"?>\n<!-- prolog -->\n" } else { "" }, 1 + rng.below(9)) } else {
+            // failures at every stage: while resolving, at a limit, and late - in the root element, after
+            // the prolog (declaration, comment, blank) would already have been written
+            match rng.below(5) {
+                0 => format!("<svg><rect xy=\"#ghost{}|h\" wh=\"2\"/></svg>", rng.below(9)),
+                1 => "<svg><loop count=\"5000\"><rect wh=\"1\"/></loop></svg>".to_string(),
+                2 => format!("<?xml version=\"1.0\" encoding=\"UTF-8\"?>\n<!-- a comment -->\n<svg {}=\"{}\"><rect wh=\"3 {}\"/></svg>", rng.pick(&["width", "height"]), rng.pick(&["auto", "1e1", "+10cm", "1 0"]), 1 + rng.below(5)),
+                3 => format!("\n  <svg width=\"auto\"><rect wh=\"{}\"/></svg>", 2 + rng.below(5)),
+                _ => format!("<!-- first --><svg height=\"big\"><circle r=\"{}\"/></svg>", 1 + rng.below(5)),
+            }
+        };
         let before: Option<Vec<u8>> = if rng.chance(2, 3) { Some(format!("previous content {i}\n").into_bytes()) } else { None };
         let alias = rng.below(6); // 0-2 distinct file, 3 same path, 4 ./ alias, 5 symlink / dir/.. alias
         let inp = root.join(format!("in{i}.xml"));
